@@ -236,13 +236,18 @@ def check_f1(mon, rng, label, order, X, scale):
             pred = np.arange(n)
         prev = None
         for eps in eps_grid:
+            want, decisive = f1_oracle(W, a_or, X, true_idx.tolist(), pred.tolist(), eps, tau)
             try:
                 got = float(calculate_epsilonF1_score(ds, order, true_idx, pred, eps))
             except Exception as e:
+                if not decisive:
+                    # epsilon sits within the numerical band of a cover distance / gap: the SOCP is degenerate there
+                    mon.count("f1_solver_failure_inside_band")
+                    prev = None
+                    continue
                 mon.violation(f"f1:crash:{type(e).__name__}", f"{kind} eps={eps}: {e!r}", {"W": W, "X": X, "pred": pred, "eps": eps})
                 continue
             mon.count("f1_events")
-            want, decisive = f1_oracle(W, a_or, X, true_idx.tolist(), pred.tolist(), eps, tau)
             mon.event(case_hash("f", W, X, pred, eps), decisive and strict.any(), f"f1/{label}/{kind}")
             case = {"W": W, "X": X, "true": true_idx, "pred": pred, "eps": eps, "kind": kind}
             if not (0.0 <= got <= 1.0):
